@@ -73,11 +73,13 @@ func NewEvaluator(btpParams Parameters, evk *EvaluationKeys) (eval *Evaluator, e
 
 	eval.Parameters = btpParams
 
+	// pack() multiplies by xPow2N1 / xPow2N2 at the level of the input ciphertexts, which can be any
+	// level of the residual parameters.
 	if paramsN1.N() != paramsN2.N() {
-		eval.xPow2N1 = rlwe.GenXPow2NTT(paramsN1.RingQ().AtLevel(0), paramsN2.LogN(), false)
+		eval.xPow2N1 = rlwe.GenXPow2NTT(paramsN1.RingQ(), paramsN2.LogN(), false)
 		eval.xPow2InvN1 = rlwe.GenXPow2NTT(paramsN1.RingQ(), paramsN1.LogN(), true)
 	}
-	eval.xPow2N2 = rlwe.GenXPow2NTT(paramsN2.RingQ().AtLevel(0), paramsN2.LogN(), false)
+	eval.xPow2N2 = rlwe.GenXPow2NTT(paramsN2.RingQ().AtLevel(paramsN1.MaxLevel()), paramsN2.LogN(), false)
 	eval.xPow2InvN2 = rlwe.GenXPow2NTT(paramsN2.RingQ(), paramsN2.LogN(), true)
 
 	if btpParams.Mod1ParametersLiteral.Mod1Type == mod1.SinContinuous && btpParams.Mod1ParametersLiteral.DoubleAngle != 0 {
